@@ -96,19 +96,33 @@ def py_core(a):
 
 def _is_or_wraps(a, t):
     import src.ir.types as tp
-    if a == t:
+    if a == t or a == py_core(t):
         return True
     return isinstance(a, tp.WildCardType) and a.bound is not None and a.bound == t and not isinstance(t, tp.WildCardType)
 
 
-def requested_by(pre, p, a):
-    """the argument stems from the caller's own assignments (for `p`, or for a parameter bounded by `p`)"""
+def _chain(q):
+    import src.ir.types as tp
+    out = []
+    b = getattr(q, "bound", None)
+    while isinstance(b, tp.TypeParameter):
+        out.append(b)
+        b = b.bound
+    return out
+
+
+def requested_by(pre, p, a, params=()):
+    """the argument stems from the caller's own assignments (for `p`, for a parameter bounded by `p`, or for a
+    parameter whose bound chain reaches `p`)"""
     pre = pre or {}
     t = pre.get(p)
     if t:
-        return _is_or_wraps(a, t)
-    return any(v is not None and getattr(k, "bound", None) is not None and k.bound == p and _is_or_wraps(a, v)
-               for k, v in pre.items())
+        if _is_or_wraps(a, t):
+            return True
+    elif any(v is not None and getattr(k, "bound", None) is not None and k.bound == p and _is_or_wraps(a, v)
+             for k, v in pre.items()):
+        return True
+    return any(pre.get(q) and any(c == p for c in _chain(q)) and _is_or_wraps(a, pre[q]) for q in params)
 
 
 def bounds_respected(t, top, depth=0):
@@ -134,6 +148,45 @@ def bounds_respected(t, top, depth=0):
     return True
 
 
+def _tvars(t, out):
+    import src.ir.types as tp
+    if isinstance(t, tp.TypeParameter):
+        out.append(t)
+    elif isinstance(t, tp.WildCardType) and t.bound is not None:
+        _tvars(t.bound, out)
+    elif isinstance(t, tp.ParameterizedType):
+        for a in t.type_args:
+            _tvars(a, out)
+    return out
+
+
+def py_within(a, b, top):
+    import src.ir.types as tp
+    import refsub
+    if isinstance(a, tp.WildCardType) and a.bound is None:
+        return True
+    if isinstance(b, tp.WildCardType):
+        if b.bound is None:
+            return True
+        b = b.bound
+    return b == top or refsub.sub(py_core(a), b)
+
+
+def pre_consistent(params, pre, top):
+    """the caller's requests respect the bounds among themselves (same reading as `preConsistent`)"""
+    import src.ir.types as tp
+    pre = {k: v for k, v in (pre or {}).items() if v}
+    for q in params:
+        t = pre.get(q)
+        if not t or q.bound is None:
+            continue
+        if not all((v not in params) or (v in pre) for v in _tvars(q.bound, [])):
+            continue
+        if not py_within(t, tp.substitute_type(q.bound, pre), top):
+            return False
+    return True
+
+
 def py_judge(params, sigma, targs, top, pre=None):
     """the clauses of the property that need no model: one argument per parameter, no primitive, no bare
     constructor, argument (or the bound of its projection) within the substituted bound by the independent
@@ -143,6 +196,7 @@ def py_judge(params, sigma, targs, top, pre=None):
     bad = []
     if targs is not None and len(targs) != len(params):
         bad.append((None, "argument-count"))
+    full = pre_consistent(params, pre, top)
     for i, p in enumerate(params):
         a = sigma.get(p)
         if a is None:
@@ -151,7 +205,7 @@ def py_judge(params, sigma, targs, top, pre=None):
         if targs is not None and i < len(targs) and not (targs[i] == a):
             bad.append((str(p), "argument-list-differs-from-map"))
         c = py_core(a)
-        if requested_by(pre, p, a):
+        if not full or requested_by(pre, p, a, params):
             continue
         for x in (a, c):
             if getattr(x, "primitive", False) or isinstance(x, tp.TypeConstructor):
@@ -159,13 +213,6 @@ def py_judge(params, sigma, targs, top, pre=None):
                 break
         if p.bound is None or (isinstance(a, tp.WildCardType) and a.bound is None):
             continue
-        b = tp.substitute_type(p.bound, sigma)
-        if isinstance(b, tp.WildCardType):
-            if b.bound is None:
-                continue
-            b = b.bound
-        if b == top:
-            continue
-        if not refsub.sub(c, b):
+        if not py_within(a, tp.substitute_type(p.bound, sigma), top):
             bad.append((str(p), "outside-bound"))
     return bad
